@@ -333,11 +333,6 @@ def signature(c, impl, v):
     body = c.body()
     differs = 'bad oob' in v or 'viol closure' in v or 'viol value' in v
     shapes = [[int(x) for x in m.split()] for m in re.findall(r'\(arr \(([0-9 ]*)\) \(', body)]
-    # awkward_slicearray_ravel: sub-blocks of an index array of rank >= 3 are written at i*shape[1] instead of
-    # i*prod(shape[1:]) (overlap + uninitialised tail): wrong data or a random 'index out of range'
-    if any(len(sh) >= 3 and sh[0] >= 2 and _prod(sh[2:]) != 1 and _prod(sh) > 0 for sh in shapes) and \
-            (differs or v.startswith('crash')):
-        return 'index-array-rank3-ravel'
     # getitem_next_array_wrap / getitem_next_regular_missing: a zero-length dimension made by an index array loses the
     # lengths of the dimensions around it (RegularArray size 0 with zeros_length 0 / 1)
     if ('(arr (0) ())' in body or any(0 in sh for sh in shapes) or c.meta.get('emptyidx') or
@@ -361,12 +356,25 @@ def signature(c, impl, v):
         return 'missing-index-zero-lists-invalid-layout'
     # RegularArray::getitem_next_jagged compares the index with the whole content, also the part beyond size*length
     # that a (valid) RegularArray does not reach: "cannot fit jagged slice with length n into ... of size m"
-    if '(lay ' in body and 'viol value (impl err)' in v and _reg_untrimmed(c.layouts[-1] if c.layouts else body[body.rfind(') (') + 2:]):
+    if '(lay ' in body and 'viol value (impl err)' in v and _reg_untrimmed(c.layouts[-1] if c.layouts else _last_sexp(body)):
         return 'jagged-index-regular-untrimmed-content'
     lay = _lay_text(body)
     if lay and differs and re.search(r'\((?:lo \w+ \([^()]*\)|la \w+ \([^()]*\) \([^()]*\)) (?:\(ix \w+ \([^()]*\) )?\((?:ixo|bym|bim|unm) ', lay):
         return 'jagged-missing-index-misaligned'
     return None
+
+
+def _last_sexp(body):
+    body = body.rstrip()
+    d = 0
+    for j in range(len(body) - 1, -1, -1):
+        if body[j] == ')':
+            d += 1
+        elif body[j] == '(':
+            d -= 1
+            if d == 0:
+                return body[j:]
+    return body
 
 
 def _lay_text(body):
